@@ -18,6 +18,10 @@
 //!     `c12-perturbation-rejected`  the single perturbation yields the corresponding error
 //!     `c12-fix-substitutes`    accepted ∧ matched ⇒ every `$V` / `$$$V` of the fix is replaced by its
 //!                              captured or transformed value (or is legitimately unbound)
+//!     `c12_globals`            a fixed list of sets of GLOBAL utility rules through the real
+//!                              `parse_global_utils`: undefined `matches` and same-node cycles (also
+//!                              through the rule's own local utilities) are rejected, references to
+//!                              other globals and recursion through relations are accepted
 use super::procpool::{self};
 use super::yaml::{api_job, SrcPool};
 use super::yaml_gen::{doc_facts, fix_facts, CYCLE_OPS};
@@ -193,7 +197,7 @@ pub fn assemble(rng: &mut Rng, which: usize) -> Case {
     "remove_util", "undef_util_in_util", "undef_util_in_constraint", "undef_util_in_expansion", "cycle_utils", "cycle_utils_self", "rename_rewriter", "remove_rewriters", "rewriter_no_fix", "rewriter_undef_var",
     "sigil_mismatch", "toggle_fix_form", "no_kinds", "undef_rewriter_in_rewriter", "rewriter_uses_upper_var",
     "undef_rewriter_in_indirect_rewriter", "undef_rewriter_in_orphan_rewriter", "indirect_rewriter_ok",
-    "cyclic_transform_rewrite_self", "cyclic_transform_rewrite_pair",
+    "cyclic_transform_rewrite_self", "cyclic_transform_rewrite_pair", "rewriter_uses_outer_transform",
   ];
   let p = names[which % names.len()];
   let mut tag = p.to_string();
@@ -352,6 +356,28 @@ pub fn assemble(rng: &mut Rng, which: usize) -> Case {
     "rewriter_uses_upper_var" if with_rw && !multi => {
       // a rewriter may use the variables of the enclosing rule
       doc.get_mut("rewriters").unwrap()[0]["fix"] = json!("<$X $B>");
+      true
+    }
+    // a rewriter's fix sees the nodes the enclosing rule CAPTURES (`$B` above), not the texts its
+    // `transform` section produces: a transformation key of the rule is undefined there
+    "rewriter_uses_outer_transform" => {
+      let src = if multi { "$$$ARGS" } else { "$A" };
+      if !doc.contains_key("transform") {
+        doc.insert("transform".into(), json!({}));
+      }
+      let t = doc.get_mut("transform").unwrap();
+      // a key of its own, so that the shapes with and without a transformation chain are covered
+      t["T"] = json!({"substring": {"source": src, "startChar": 0}});
+      if t.get("RW").is_none() {
+        t["RW"] = json!({"rewrite": {"source": src, "rewriters": ["rw"], "joinBy": "+"}});
+      }
+      // the rewriter uses its own capture and the outer key; with a transformation chain in the
+      // rule, sometimes one of the chain's keys instead
+      let key = if with_transform && rng.chance(1, 2) { "T2" } else { "T" };
+      let fix = if rng.chance(1, 2) { format!("[${key}|$X]") } else { format!("<$X ${key}>") };
+      doc.insert("rewriters".into(), json!([{"id": "rw", "rule": {"kind": "identifier", "pattern": "$X"}, "fix": fix}]));
+      tag = format!("{p}:{key}");
+      expect = "Rewriter.UndefinedMetaVar.fix".into();
       true
     }
     "undef_rewriter_in_rewriter" if with_rw => {
@@ -648,6 +674,27 @@ pub fn inconsistency(doc: &Value) -> Option<String> {
       }
     }
   }
+  // the fix of a rewriter: its own captures and transformation keys, and the variables the
+  // enclosing rule CAPTURES (a rewriter is applied to nodes: the texts produced by the rule's
+  // `transform` section are not visible to it)
+  for r in &rewriters {
+    let mut own = defined.clone();
+    pattern_vars(&r["rule"], &mut own);
+    for sec in ["utils", "constraints"] {
+      if let Some(m) = r.get(sec).and_then(|m| m.as_object()) {
+        m.values().for_each(|x| pattern_vars(x, &mut own));
+      }
+    }
+    if let Some(t) = r.get("transform").and_then(|t| t.as_object()) {
+      own.extend(t.keys().cloned());
+    }
+    if let Some(fix) = r.get("fix") {
+      let t = fix.as_str().or_else(|| fix.get("template").and_then(|t| t.as_str())).unwrap_or("");
+      if occurrences(t).iter().any(|(name, _)| !own.contains(name)) {
+        return Some("fix variable of a rewriter is undefined".into());
+      }
+    }
+  }
   None
 }
 
@@ -788,6 +835,80 @@ pub fn c12_accept(ctx: &Ctx, rng: &mut Rng, o: &mut Out) {
   o.oracle("c12-accept-consistent", true, json!({"cases": cases.len(), "failures": f_cons, "no_verdict_crashed": crashed, "tally": tally}));
   o.oracle("c12-perturbation-rejected", true, json!({"cases": cases.len(), "failures": f_pert}));
   o.oracle("c12-fix-substitutes", true, json!({"cases": n_subst, "failures": f_subst}));
+  c12_globals(o);
+}
+
+/// `c12_globals`: global utility rules (the files of `utilDirs`) are self-consistent as a SET.
+/// Every case is a set of global utility documents handed to the real
+/// `DeserializeEnv::parse_global_utils` (in an isolated child: role `util` registers the documents,
+/// then loads and runs a rule `matches: <id of the last one>`, so an accepted set is exercised by a
+/// scan as well); demanded: accepted, or rejected with the given error kind.
+///   * every `matches` of a global rule resolves once ALL of them are registered,
+///   * a global rule that requires itself on the same node — directly, through another global rule
+///     or through its OWN local utilities (under `matches` / `all` / `any` / `not` /
+///     `nthChild.ofRule`) — is a `CyclicRule`; recursion through a relation is legitimate.
+fn c12_globals(o: &mut Out) {
+  let g = |id: &str, body: Value| -> String {
+    let mut d = json!({"id": id, "language": "JavaScript"});
+    for (k, v) in body.as_object().unwrap() {
+      d[k.as_str()] = v.clone();
+    }
+    d.to_string()
+  };
+  let own_cycle = |x: Value| json!({"utils": {"x": x}, "rule": {"kind": "number", "matches": "x"}});
+  const UNDEF: &str = "MatchesReference.UndefinedUtil";
+  const CYCLIC: &str = "MatchesReference.CyclicRule";
+  // (name, documents (the last one is the one the user rule refers to), expected error suffix)
+  let cases: Vec<(&str, Vec<String>, &str)> = vec![
+    ("1 undefined reference in the rule", vec![g("g", json!({"rule": {"kind": "number", "matches": "nonexistent"}}))], UNDEF),
+    ("1 undefined reference in a local utility", vec![g("g", json!({"utils": {"x": {"kind": "number", "matches": "nonexistent"}}, "rule": {"matches": "x"}}))], UNDEF),
+    ("1 undefined reference in a constraint", vec![g("g", json!({"rule": {"pattern": "$A"}, "constraints": {"A": {"kind": "number", "matches": "nonexistent"}}}))], UNDEF),
+    ("1 undefined reference next to a defined one", vec![g("b", json!({"rule": {"kind": "number"}})), g("g", json!({"rule": {"any": [{"matches": "b"}, {"matches": "nonexistent"}]}}))], UNDEF),
+    ("2 reference to another global", vec![g("b", json!({"rule": {"kind": "number"}})), g("a", json!({"rule": {"matches": "b"}}))], ""),
+    ("2 reference to another global, other order", vec![g("a", json!({"rule": {"matches": "b"}})), g("b", json!({"rule": {"kind": "number"}}))], ""),
+    ("3 own local utility requires the global", vec![g("g", own_cycle(json!({"matches": "g"})))], CYCLIC),
+    ("4 own local utility requires the global under any", vec![g("g", own_cycle(json!({"any": [{"kind": "string"}, {"matches": "g"}]})))], CYCLIC),
+    ("4 own local utility requires the global under all", vec![g("g", own_cycle(json!({"all": [{"kind": "number"}, {"matches": "g"}]})))], CYCLIC),
+    ("4 own local utility requires the global under not", vec![g("g", own_cycle(json!({"not": {"matches": "g"}})))], CYCLIC),
+    ("4 own local utility requires the global under nthChild.ofRule", vec![g("g", own_cycle(json!({"nthChild": {"position": 1, "ofRule": {"matches": "g"}}})))], CYCLIC),
+    ("4 chain of two own local utilities requires the global", vec![g("g", json!({"utils": {"x": {"matches": "y"}, "y": {"matches": "g"}}, "rule": {"kind": "number", "matches": "x"}}))], CYCLIC),
+    ("4 own local utility requires the global, rule under all", vec![g("g", json!({"utils": {"x": {"matches": "g"}}, "rule": {"all": [{"kind": "number"}, {"matches": "x"}]}}))], CYCLIC),
+    ("4 own local utility of another global closes the cycle", vec![g("h", json!({"rule": {"matches": "g"}})), g("g", own_cycle(json!({"matches": "h"})))], CYCLIC),
+    ("5 two globals require each other", vec![g("g1", json!({"rule": {"matches": "g2"}})), g("g2", json!({"rule": {"matches": "g1"}}))], CYCLIC),
+    ("5 a global requires itself", vec![g("g", json!({"rule": {"kind": "number", "matches": "g"}}))], CYCLIC),
+    ("6 own local utility refers to another global", vec![g("b", json!({"rule": {"kind": "number"}})), g("g", own_cycle(json!({"matches": "b"})))], ""),
+    ("6 own local utility refers to another global, other order", vec![g("g", own_cycle(json!({"matches": "b"}))), g("b", json!({"rule": {"kind": "number"}}))], ""),
+    ("7 own local utility refers to the global through a relation", vec![g("g", own_cycle(json!({"inside": {"matches": "g", "stopBy": "end"}})))], ""),
+    ("7 own local utility refers to the global through has", vec![g("g", json!({"utils": {"x": {"has": {"matches": "g", "stopBy": "end"}}}, "rule": {"any": [{"kind": "number"}, {"matches": "x"}]}}))], ""),
+    ("8 cycle among own local utilities only", vec![g("g", json!({"utils": {"x": {"matches": "y"}, "y": {"matches": "x"}}, "rule": {"kind": "number", "matches": "x"}}))], CYCLIC),
+    ("8 own local utility requires itself", vec![g("g", json!({"utils": {"x": {"any": [{"kind": "number"}, {"matches": "x"}]}}, "rule": {"kind": "number", "matches": "x"}}))], CYCLIC),
+  ];
+  let mut jobs = vec![];
+  for (_, docs, _) in &cases {
+    let (last, before) = docs.split_last().unwrap();
+    jobs.push(json!({"k": "api", "role": "util", "y": last, "g": before, "src": [["JavaScript", "foo(1, [2, 'a'], b);\nlet c = 3;\n"]]}));
+  }
+  let answers = procpool::run_jobs(&jobs, procpool::nproc());
+  let mut failures = 0usize;
+  for ((name, docs, want), ans) in cases.iter().zip(answers.iter()) {
+    let load = ans.detail["load"].as_str().unwrap_or("?");
+    let v = ans.detail["v"].as_str().unwrap_or("");
+    let got = if ans.class.crashed() {
+      format!("crashed ({})", ans.class.name())
+    } else if load == "ok" {
+      "accepted".to_string()
+    } else {
+      format!("rejected {v}")
+    };
+    let ok = !ans.class.crashed()
+      && if want.is_empty() { load == "ok" } else { load == "err" && v.starts_with("Global.") && v.ends_with(want) };
+    if !ok {
+      failures += 1;
+      let demanded = if want.is_empty() { "accepted".to_string() } else { format!("rejected ..{want}") };
+      o.oracle("c12_globals", false, json!({"fp": format!("c12 global utilities, case {name}: demanded [{demanded}]"), "got": got, "detail": ans.detail, "globals": docs}));
+    }
+  }
+  o.oracle("c12_globals", true, json!({"cases": cases.len(), "failures": failures}));
 }
 
 pub fn exec(_op: &str, _a: &Value) -> Option<Value> {
